@@ -1,6 +1,7 @@
 package main
 
 import (
+	"context"
 	"encoding/json"
 	"fmt"
 	"io"
@@ -38,7 +39,9 @@ var (
 
 func wsServerURL() string {
 	wsOnce.Do(func() {
-		srv := httptest.NewServer(http.HandlerFunc(theAPI.ServeGraphQLWS))
+		srv := httptest.NewServer(http.HandlerFunc(func(rw http.ResponseWriter, r *http.Request) {
+			theAPI.ServeGraphQLWS(rw, r.WithContext(context.WithValue(r.Context(), underAPI{}, true)))
+		}))
 		wsURL = "ws" + strings.TrimPrefix(srv.URL, "http")
 	})
 	return wsURL
@@ -57,7 +60,7 @@ func (w *world) stream() (interface{}, error) {
 		if w.r.Chance(1, 10) {
 			return (*apifu.SubscriptionSourceStream)(nil)
 		}
-		n := w.r.Intn(4)
+		n := w.r.Intn(7)
 		ch := make(chan interface{}, n)
 		for i := 0; i < n; i++ {
 			switch w.r.Intn(4) {
